@@ -36,8 +36,8 @@ ASSUMPTIONS = [
 SHARDS = {"quick": 16, "thorough": 16}
 MIN_REACH = {
     "scripts_generated": {"quick": 40, "thorough": 400},
-    "script_executions": {"quick": 60, "thorough": 800},
-    "programs_compiled": {"quick": 60, "thorough": 800},
+    "script_executions": {"quick": 60, "thorough": 500},
+    "programs_compiled": {"quick": 60, "thorough": 500},
     "cli_runs": {"quick": 4, "thorough": 40},
     "partial_state_scripts": {"quick": 12, "thorough": 120},
 }
